@@ -30,7 +30,7 @@ def spec_from(case):
         "vseed": case.get("vseed", 0),
     }
     for key in ("mode", "enum_cycle", "leader_overrides", "volume_overrides", "lowres",
-                "summary_entries", "newline", "trailing_newline"):
+                "summary_entries", "newline", "trailing_newline", "trailing"):
         if key in case:
             spec[key] = case[key]
     return spec
